@@ -62,6 +62,75 @@ CHECKS = {
             "{-2,-1,0,.5,1,3}^n + images down to 1e-9 (numerically-zero clause).",
             "float32; <=4 inputs/buckets",
             "3/C06"),
+    "C07": (MC,
+            "bounded exhaustive enumeration (all kernel x scale words packed as units through the real "
+            "constraints + real layer evaluation) + explicit-state BFS over update/constraint orders",
+            "KFL: lattice_sizes {2,3} x dims 1-3 x terms 1-2 x every monotonicity subset x bounds "
+            "{none,min,max,both} x clip_inputs; per unit all kernel words over {-1,0,.5,2}^e and all scale "
+            "words over {-2,-.5,0,.5,2}^terms, both constraint orders, output judged on the full input grid; "
+            "BFS (depth 3/4) over raw perturbations, kernel constraint, scale constraint, finalize_constraints "
+            "from constructed and hostile states with the invariant evaluated in every settled state and "
+            "replay of histories on a fresh layer.",
+            "float32; tolerance 5e-4*max(1,|out|) (+1e-5*|w| after finalize_constraints' assign_add cancellation); "
+            "reduced kernel alphabets for >6 entries per unit (reported in evidence tables)",
+            "3/C07"),
+    "C08": (MC,
+            "trajectory exploration of the real Dykstra iteration (N=1,10,100,1000) for all {-1,0,1}^n "
+            "start kernels x all single/paired families, judged against an exact active-set projection",
+            "Every family and every valid pair on [2,2],[2,3],[3,2],[3,3],[2,2,2]: feasible kernels fixed, "
+            "largest violation decays, converged result idempotent, limit equals the exact Euclidean projection "
+            "(exhaustive active-set enumeration / Hildreth in float64) for the families the property lists, strict "
+            "layer constraint stays close; PWL project_all_constraints likewise.",
+            "float32; limit observed at N=1000 with tolerance 3e-3*max(1,|w|) for distance-to-nearest; long runs traced "
+            "with tf.function (the library's own tf.while_loop), units=1 path checked in eager mode",
+            "3/C08"),
+    "C09": (EX,
+            "bounded exhaustive comparison of packed vs alone (units) and batched vs alone (rows) on the real code",
+            "Each constraint kind in its most coupled configurations: every kernel alone vs all packed, vs hostile "
+            "2-unit neighbours in both positions, permutations, all ordered pairs over a sub-alphabet; unit u's output "
+            "unchanged when other units' parameters/inputs are replaced; every layer kind, CDF, cdf_fn, "
+            "pwl_calibration_fn and three premade models: rows alone vs batched, reversed, thinned, all ordered row pairs.",
+            "float32 equality up to 1e-5/1e-6 relative",
+            "3/C09"),
+    "C13": (EX,
+            "bounded exhaustive enumeration of kernels x regularizer configurations against the literal docstring sums",
+            "Lattice Laplacian/torsion on 7 (12) shapes x scalar/per-dimension amounts (with zeros) x all words of "
+            "{-1,0,1}^n (n<=9) single and multi-unit; PWL Laplacian/Hessian/wrinkle rows 2-6 x cyclic; linearity in "
+            "(l1,l2); vanishing clauses.",
+            "float32 relative tolerance 2e-4",
+            "3/C13"),
+    "C14": (EX,
+            "bounded exhaustive enumeration of parameter words x input grids for six pairs of representations (impl vs impl)",
+            "KFL vs Lattice(dense kernel), pwl_calibration_fn vs PWLCalibration(derived keypoints/kernel), cdf_fn vs CDF, "
+            "ParallelCombination vs column-wise layers, Aggregation vs per-row mean over all ragged length triples, RTL vs "
+            "explicit gather of its recorded structure.",
+            "float32 relative tolerance 2e-4; geometric-mean CDF excluded as the property states",
+            "3/C14"),
+    "C15": (EX,
+            "bounded exhaustive enumeration of free-form parameter words (incl. +-50) x modes x input sets through "
+            "pwl_calibration_fn / CDF / cdf_fn",
+            "All output-parameter words over {-50,-1,0,1,50}^P x input-keypoint words over {-50,-2,0,2,50} for every "
+            "mode/missing/units: bounded, monotone (all ordered input pairs), clamps, cyclic, missing; every documented "
+            "parameter rank/broadcast form; CDF layer (through its own NonNeg constraint) and cdf_fn: in [0,1], "
+            "non-decreasing per input on grids.",
+            "float32; end-point clauses judged only for well-conditioned keypoint words (|logit|<=2)",
+            "3/C15"),
+    "C18": (EX,
+            "bounded exhaustive enumeration of all value arrays (len<=5/6 over {0,1,2,5}) x weights x clips x defaults x "
+            "num_keypoints x modes through compute_keypoints and helpers",
+            "5460 arrays x weights {None, ones, non-constant words over {1,3}} x 7 clip modes x default {None,0} x "
+            "num_keypoints 2..5 x {quantiles,uniform} x {mean,sum}: no error, strictly increasing, in range, ends, "
+            "count rule, observed values, accepted by PWLCalibration; feature/label helpers.",
+            "zero/negative example weights outside the alphabet",
+            "3/C18"),
+    "C19": (EX,
+            "bounded exhaustive enumeration of zero patterns / kernel words, gradients via tf.GradientTape against "
+            "autodiff of reference expressions and closed forms",
+            "custom_reduce_prod on all vectors over {-2,0,.5,1,3}^k (k<=4) in 4 layouts/axes; KFL gradients w.r.t. kernel, "
+            "scale, inputs vs plain-product expression; Lattice/PWL/Categorical kernel Jacobians equal reference "
+            "interpolation weights for two kernels.",
+            "float32; input gradients compared only at differentiable points",
+            "3/C19"),
     "C20": (EX,
             "bounded exhaustive enumeration of Linear layer configurations x all kernel words x input "
             "grid against the clipped-affine reference; consequences on weights produced by the real constraint",
